@@ -1,6 +1,6 @@
 (* C11 - Accounted pool balance = pool holdings + perpetual liabilities - custody. Statements only. *)
 From Coq Require Import ZArith List Bool.
-From Elys Require Import Base.Res Models.AccPool Proofs.AccPoolProofs.
+From Elys Require Import Base.Res Models.AccPool Proofs.AccPoolProofs Proofs.AccPoolExact.
 Import ListNotations.
 Open Scope Z_scope.
 
@@ -18,6 +18,45 @@ Theorem C11_fixed_discipline_sound : forall l s, AInv s ->
   AInv (fold_left (fun s '(R', L', C') => fixed_step s R' L' C') l s).
 Proof. exact fixed_run_inv. Qed.
 Print Assumptions C11_fixed_discipline_sound.
+
+(* The discipline is NECESSARY as well as sufficient. From a consistent accounted pool, a code path leaves it consistent IF
+   AND ONLY IF: it fires a perpetual hook with freshly read pools; or it fires the amm hook and liabilities - custody did
+   not move; or it passes a stale amm pool and the reserve did not move; or it fires no hook and neither the reserve nor
+   liabilities - custody moved. Every one-sided update (a source record moved without the matching hook, a hook fed a
+   value read before the transfer) breaks the equation - for all values. *)
+Theorem C11_consistent_iff_discipline : forall s o, AInv s -> (AInv (accstep s o) <-> needed s o).
+Proof. exact accstep_inv_iff. Qed.
+Print Assumptions C11_consistent_iff_discipline.
+
+(* ... over whole histories: consistent after every step iff every step met the condition. *)
+Theorem C11_history_consistent_iff : forall h s, AInv s -> (inv_along s h <-> needed_run s h).
+Proof. exact inv_along_iff. Qed.
+Print Assumptions C11_history_consistent_iff.
+
+(* the discipline of C11_accounted implies the necessary condition (it is the special case in which the code changes
+   nothing it does not report) *)
+Theorem C11_disciplined_is_needed : forall s o, disciplined s o -> needed s o.
+Proof. exact disciplined_needed. Qed.
+Print Assumptions C11_disciplined_is_needed.
+
+(* A fresh accounted pool (created with the amm pool, no perpetual totals yet) is consistent: the histories of
+   C11_accounted start from a state that exists. *)
+Theorem C11_fresh_pool_consistent : forall R, AInv (mkAcc R 0 0 R 0).
+Proof. exact fresh_pool_inv. Qed.
+Print Assumptions C11_fresh_pool_consistent.
+
+(* What the two hooks write, exactly, and what they must not touch (the three source records). *)
+Theorem C11_perp_hook_exact : forall s Ra La Ca,
+  a_T (perp_hook s Ra La Ca) = Ra + La - Ca /\ a_N (perp_hook s Ra La Ca) = La - Ca /\
+  a_R (perp_hook s Ra La Ca) = a_R s /\ a_L (perp_hook s Ra La Ca) = a_L s /\ a_C (perp_hook s Ra La Ca) = a_C s.
+Proof. exact perp_hook_exact. Qed.
+Print Assumptions C11_perp_hook_exact.
+
+Theorem C11_amm_hook_exact : forall s Ra,
+  a_T (amm_hook s Ra) = Ra + a_N s /\ a_N (amm_hook s Ra) = a_N s /\
+  a_R (amm_hook s Ra) = a_R s /\ a_L (amm_hook s Ra) = a_L s /\ a_C (amm_hook s Ra) = a_C s.
+Proof. exact amm_hook_exact. Qed.
+Print Assumptions C11_amm_hook_exact.
 
 (* The pinned commit violated the discipline at two sites (both repaired by fix: commits). *)
 Theorem C11_prefix_stale_open_refuted :
